@@ -94,7 +94,7 @@ async def async_connect(transport):
     """Connect to the serial port."""
     loop = asyncio.get_running_loop()
     try:
-        while True:
+        while transport.protocol:
             _LOGGER.info("Trying to connect to %s", transport.gateway.port)
             try:
                 await serial_asyncio.create_serial_connection(
